@@ -139,6 +139,30 @@ class InjectLatency:
         return next(iter(ctx.networks.values()))
 
 
+def _update_injected_loss(link, extra: float, *, active: bool) -> None:
+    """Record (or forget) one injected loss on the link and recompute its rate.
+
+    The rate is the configured rate plus every extra that is currently active,
+    so overlapping windows compose and the last one to end restores the
+    configured rate exactly.
+    """
+    state = getattr(link, "_injected_loss", None)  # (configured rate, active extras)
+    if state is None:
+        if not active:
+            return
+        state = link._injected_loss = (link.packet_loss_rate, [])
+    configured, extras = state
+    if active:
+        extras.append(extra)
+    elif extra in extras:
+        extras.remove(extra)
+    if extras:
+        link.packet_loss_rate = min(1.0, configured + sum(extras))
+    else:
+        link.packet_loss_rate = configured
+        del link._injected_loss
+
+
 @dataclass(frozen=True)
 class InjectPacketLoss:
     """Inject additional packet loss on a link for a time window.
@@ -168,13 +192,12 @@ class InjectPacketLoss:
         if link is None:
             raise ValueError(f"No link found: {self.source_name} -> {self.dest_name}")
 
-        original_loss = link.packet_loss_rate
         src = self.source_name
         dst = self.dest_name
         extra = self.loss_rate
 
         def activate(e: Event) -> None:
-            link.packet_loss_rate = min(1.0, original_loss + extra)
+            _update_injected_loss(link, extra, active=True)
             logger.info(
                 "[FaultInjection] Injected +%.1f%% packet loss on %s -> %s at %s",
                 extra * 100,
@@ -184,7 +207,7 @@ class InjectPacketLoss:
             )
 
         def deactivate(e: Event) -> None:
-            link.packet_loss_rate = original_loss
+            _update_injected_loss(link, extra, active=False)
             logger.info(
                 "[FaultInjection] Restored packet loss on %s -> %s at %s",
                 src,
